@@ -15,6 +15,7 @@
 #define CELMA_COMMON_SINGLETON_HPP
 
 
+#include <atomic>
 #include <memory>
 #include <mutex>
 #include <utility>
@@ -34,7 +35,12 @@ namespace celma { namespace common {
 /// .
 /// The singleton template creates an object when required and stores it in a
 /// std::unique_ptr<>. Creating the singleton object as a static member of a
-/// member function is not supported anymore.
+/// member function is not supported anymore.<br>
+/// The std::unique_ptr<> is only accessed while the mutex is held. The check
+/// without the mutex uses a separate atomic pointer that is set, with release
+/// semantics, after the object is completely constructed.
+/// @since  x.y.z, 29.09.2026
+///    (unlocked check reads an atomic pointer instead of the unique_ptr)
 /// @since  0.10, 11.12.2016 (removed singleton creator policy)
 /// @since  0.2, 10.04.2016
 template< class T> class Singleton
@@ -92,12 +98,16 @@ private:
    /// The singleton object, created when instance() is called for the first
    /// time.
    static std::unique_ptr< T>  mpObject;
+   /// Pointer to the completely constructed singleton object, for the check
+   /// without the mutex. Written only while the mutex is held.
+   static std::atomic< T*>     mpInstance;
 
 }; // Singleton< T>
 
 
 template< class T> std::mutex           Singleton< T>::mMutex;
 template< class T> std::unique_ptr< T>  Singleton< T>::mpObject;
+template< class T> std::atomic< T*>     Singleton< T>::mpInstance{ nullptr};
 
 
 // inlined methods
@@ -109,21 +119,25 @@ template< class T> template< class... Args>
 {
 
    CELMA_VERIF_SYNC( "singleton.read1");
-   if (mpObject.get() == nullptr)
+   T*  obj = mpInstance.load( std::memory_order_acquire);
+   if (obj == nullptr)
    {
       CELMA_VERIF_SYNC( "singleton.lock");
       const std::lock_guard< std::mutex>  lg( mMutex);
       CELMA_VERIF_SYNC( "singleton.read2");
-      if (mpObject.get() == nullptr)
+      obj = mpInstance.load( std::memory_order_relaxed);
+      if (obj == nullptr)
       {
          CELMA_VERIF_SYNC( "singleton.construct");
          mpObject.reset( new T( std::forward< Args>( args)...));
+         obj = mpObject.get();
+         mpInstance.store( obj, std::memory_order_release);
       } // end if
       CELMA_VERIF_SYNC( "singleton.unlock");
    } // end if
 
    CELMA_VERIF_SYNC( "singleton.read3");
-   return *mpObject;
+   return *obj;
 } // Singleton< T>::instance
 
 
@@ -131,6 +145,7 @@ template< class T> void Singleton< T>::reset()
 {
 
    const std::lock_guard< std::mutex>  lg( mMutex);
+   mpInstance.store( nullptr, std::memory_order_release);
    mpObject.reset();
    
 } // Singleton< T>::reset
